@@ -803,15 +803,18 @@ package ugo
 // ---------------------------------------------------------------------------
 // C05: the emitter. MakeInstruction reports an operand that does not fit its
 // width as an error (proved above); what emit / changeOperand do with that
-// error is checked here: they must not panic. (Known open finding: they do.)
+// error is checked here: the only panic allowed is the typed bailout value
+// that Compiler.Compile recovers and turns into a compile error.
 //@ func (*Compiler).emit
 //@ params c node opcode operands
 //@ requires c != nil && c.sourceMap != nil && c.trace == nil && int(opcode) < len(OpcodeOperands) && len(operands) < 1<<30
+//@ panicsonly ugo.compilerBailout
 //@ modifies *
 //@ property C05
 
 //@ func (*Compiler).changeOperand
 //@ params c opPos operand
 //@ requires c != nil && c.trace == nil && 0 <= opPos && opPos < len(c.instructions) && int(c.instructions[opPos]) < len(OpcodeOperands) && len(operand) < 1<<30
+//@ panicsonly ugo.compilerBailout
 //@ modifies *
 //@ property C05
